@@ -288,6 +288,14 @@ static void on_signal(int sig)
     _exit(70);
 }
 
+#if defined(SIM_TSAN)
+void __sanitizer_set_death_callback(void (*cb)(void));
+static void on_san_death(void) { crash_line("SANITIZER"); }
+__attribute__((used)) const char *__tsan_default_options(void)
+{
+    return "halt_on_error=1:exitcode=77:report_signal_unsafe=0:history_size=2:second_deadlock_stack=0:report_thread_leaks=0";
+}
+#endif
 #if SIM_ASAN
 void __sanitizer_set_death_callback(void (*cb)(void));
 static void on_san_death(void) { crash_line("SANITIZER"); }
@@ -314,7 +322,7 @@ static void install_handlers(void)
     sa.sa_handler = on_signal;
     sa.sa_flags = SA_ONSTACK | SA_NODEFER;
     for (i = 0; i < sizeof sigs / sizeof sigs[0]; i++) sigaction(sigs[i], &sa, NULL);
-#if SIM_ASAN
+#if SIM_ASAN || defined(SIM_TSAN)
     __sanitizer_set_death_callback(on_san_death);
 #endif
 }
